@@ -29,7 +29,7 @@ TEXT = {
  "C12": ("Verus verifies sqrt, exp, pow, powi, ln, log2, sin, cos as written, generic over all supported types, against trait-level contracts (no panic-class obligation left; conventions as postconditions); Kani proves sin/cos/tan/sqrt/log2/ln/exp total on I9F23 (whole domain) and sin/cos/exp on wider types for the stated ranges",
          "trait-level contracts and conversion/comparison axioms assumed (listed); log2_inner and cordic_rotation (iterator adapters) and tan: Kani per instantiated type"),
  "C13": ("Verus verifies the real generic sqrt, for every supported pair of types, against the integer bracket (r - 4)^2 <= X * 2^F <= (r + 4)^2 (|r - sqrt x| <= 4 ulp), exactness at 0 and 1, non-negativity, and Err only for negative operands / unrepresentable reciprocals: the Newton loop carries the invariant that the distance to the integer square root at least halves per step, the reciprocal path a nonlinear bracket lemma; all lemmas machine-checked, no admit",
-         "trait-level contracts of Fixed and the conversion / comparison axioms are assumed here (proved in other units / by Kani); holds for the tree with the trip-count fix 164c3b4 (known_findings.json) - the pre-fix loop count fails the final-step obligation; Kani twins are bounded grids"),
+         "trait-level contracts of Fixed and the conversion / comparison axioms are assumed here (proved in other units / by Kani); holds for the tree with the trip-count fix 164c3b4 (known_findings.json) - the pre-fix loop count fails the final-step obligation; no SAT twin (64-bit dividers), so violations come without a failing input"),
  "C17": ("Verus: a ghost iteration counter (R14) in sqrt, exp and sin, generic over every supported type, with `assert(vticks <= 4*w+64)` at every exit and `decreases bound - vticks` on while/loop; Kani asserts the hook iteration counter <= 4*width+64 after every call (whole domain on I9F23, I32F32 in thorough)",
          "counter hook lines in transcendental.rs (guarded); log2_inner / cordic_rotation counted by Kani per type only; the sin range-reduction defect was fixed"),
  "C10": ("Kani runs the real parity-scale-codec derive for one alias per family over all bit patterns: encode == to_le_bytes == encoding of the bits, max_encoded_len, decode round trip, short input fails, byte views inverse",
